@@ -34,6 +34,7 @@ type Case struct {
 	Vec  []Val  `json:"vec,omitempty"`
 	Vec2 []Val  `json:"vec2,omitempty"`
 	Exp  Val    `json:"exp"`
+	Dev  *Val   `json:"dev,omitempty"` // modelled known deviation (spec: KnownDeviation_*)
 	Ty   string `json:"ty,omitempty"`
 }
 
@@ -222,6 +223,18 @@ func (rp *replayer) judge(c *Case, rt string, ti *tinfo, oc outcome, xs []float6
 			rp.count(status)
 			return
 		}
+		// a miss that equals the modelled known deviation is reported as that deviation
+		what := "value"
+		if c.Dev != nil && c.Dev.K == "term" {
+			if dv, dtol, st := evalTerm(rp.term(c.Dev.E), xs, u); st == "" {
+				if ti.cls == "int" && math.Abs(float64(oc.o.i)-dv) < 1+dtol {
+					what = "known_deviation"
+				}
+				if ti.cls != "int" && math.Abs(oc.o.f-dv) <= dtol+math.Abs(dv)*u {
+					what = "known_deviation"
+				}
+			}
+		}
 		if ti.cls == "int" {
 			// precision of an integer storage type: one unit
 			lim := math.Ldexp(1, ti.bits-1) - 2
@@ -230,7 +243,7 @@ func (rp *replayer) judge(c *Case, rt string, ti *tinfo, oc outcome, xs []float6
 				return
 			}
 			if !(math.Abs(float64(oc.o.i)-v) < 1+tol) {
-				rp.mismatch(c, rt, "value", impl, order, vh.M{"observed": oc.o.String(), "expected_value": v, "tol": 1 + tol, "term": t.String()})
+				rp.mismatch(c, rt, what, impl, order, vh.M{"observed": oc.o.String(), "expected_value": v, "tol": 1 + tol, "term": t.String()})
 			} else {
 				rp.count("term_int_ok")
 			}
@@ -246,7 +259,7 @@ func (rp *replayer) judge(c *Case, rt string, ti *tinfo, oc outcome, xs []float6
 		}
 		tol += minf * u
 		if !(math.Abs(oc.o.f-v) <= tol) {
-			rp.mismatch(c, rt, "value", impl, order, vh.M{"observed": oc.o.f, "expected_value": v, "tol": tol, "term": t.String()})
+			rp.mismatch(c, rt, what, impl, order, vh.M{"observed": oc.o.f, "expected_value": v, "tol": tol, "term": t.String()})
 			return
 		}
 		rp.count("term_float_ok")
@@ -849,7 +862,11 @@ func (rp *replayer) runPkg(c *Case) {
 func (rp *replayer) runCase(c *Case) {
 	rp.count("cases")
 	rp.count("cases_" + c.G)
-	rp.ops[c.Op] = true
+	if c.G == "pkg" {
+		rp.ops["pkg."+c.Op] = true
+	} else {
+		rp.ops[c.Op] = true
+	}
 	if c.R != "" {
 		rp.recv[c.R] = true
 		rp.opRecv[c.Op+"/"+c.R] = true
